@@ -121,6 +121,10 @@ def gen_scene(rng, n, m, flavor="mixed", dim=None, mode=None, policy=None, fpv=N
             if near is not None:
                 dx, dy = rng.choice(OFFS3)
                 p = [near["p"][0] + dx, near["p"][1] + dy, near["p"][2] + rng.choice([0, 0, 0, 4])]
+                if rng.random() < 0.1:
+                    # a NEAR tie: 2^-27 m off the lattice (exact in binary64) -- symmetric candidates then differ by less than float32
+                    # resolution but are not tied: the better one must win, wherever it is listed
+                    p[0] += rng.choice([1, -1, 2]) * 2.0 ** -24
                 size = list(near["size"]) if rng.random() < 0.5 else list(rng.choice(SIZES3))
             else:
                 p = [rng.randint(-80, 80), rng.randint(-80, 80), 0]
@@ -150,6 +154,38 @@ def gen_scene(rng, n, m, flavor="mixed", dim=None, mode=None, policy=None, fpv=N
         omit.append("targets")
     return {"dim": dim, "family": family, "mode": mode, "policy": policy, "fpv": fpv, "targets": targets,
             "thresholds": thresholds, "est": ests, "gt": gts, "omit": omit}
+
+
+def add_tie_block(rng, c):
+    """Append, far away from everything else, a block of 3 ground truths of one label and 4 estimates of ANOTHER label (second matching
+    stage unless the policy allows any label; >= 3 left-over estimates) whose score cells tie on the ANTI-diagonal: estimate i is as
+    close to ground truth j as estimate i+1 is to ground truth j-1, and two estimates contest the last ground truth at the same score.
+    Lattice scenes only (the ties are exact)."""
+    if not c["gt"] or any("yaw_rad" in o for o in c["est"] + c["gt"]):
+        return c
+    labels = sorted({o["label"] for o in c["est"] + c["gt"] if o["label"] not in ("FP", "UNKNOWN")})
+    if not labels:
+        return c
+    gl = rng.choice(labels)
+    el = rng.choice([l for l in labels if l != gl] or ["UNKNOWN"])
+    fr = c["gt"][0]["frame"]
+    d = rng.choice([2, 4, 4, 8])
+    if c["dim"] == "3d":
+        X, Y = 8 * rng.choice([200, -200, 300]), 8 * rng.randint(-3, 3)
+        size = list(rng.choice(SIZES3))
+
+        def mk(x, label):
+            return {"p": [X + x, Y, 0], "size": list(size), "yaw": 0, "label": label, "frame": fr, "nm": 0}
+    else:
+        X, Y = 2000 + 8 * rng.randint(0, 9), 600 + 8 * rng.randint(0, 9)
+        w, h = rng.choice(ROI_WH[:5])
+
+        def mk(x, label):
+            return {"roi": [X + x, Y, w, h], "label": label, "frame": fr, "nm": 0}
+    c["gt"] += [mk(0, gl), mk(80, gl), mk(160, gl)]
+    c["est"] += [mk(80 + d, el), mk(-d, el), mk(160 - d, el), mk(160 + d, el)]
+    c["tie_block"] = True
+    return c
 
 
 def witness_cases():
@@ -218,6 +254,9 @@ def gen_cases(tier, rng, flavor):
     hi = 16 if not big else 24
     small = [gen_scene(rng, rng.randint(1, 5), rng.randint(1, 5), flavor if rng.random() < 0.7 else "mixed") for _ in range(n_small)]
     mid = [gen_scene(rng, rng.randint(3, 10), rng.randint(3, 10), flavor if rng.random() < 0.7 else "mixed") for _ in range(n_mid)]
+    # every eighth small / mid scene: an anti-diagonal tie block of label-incompatible pairs (second stage with >= 3 left-over estimates)
+    small = [add_tie_block(rng, c) if k % 8 == 5 else c for k, c in enumerate(small)]
+    mid = [add_tie_block(rng, c) if k % 8 == 5 else c for k, c in enumerate(mid)]
     cont = [gen_scene(rng, rng.randint(1, 9), rng.randint(1, 9), "continuous") for _ in range(n_cont)]   # arbitrary floats
     large = [gen_scene(rng, rng.randint(8, hi), rng.randint(8, hi), flavor if rng.random() < 0.5 else "mixed", cheap=True) for _ in range(n_large)]
     # interleave the streams so that the coqc shards are balanced
@@ -473,6 +512,21 @@ def observe_manager(case):
         cof = CriticalObjectFilterConfig(ec, names, max_x_position_list=[1000.0] * len(names), max_y_position_list=[1000.0] * len(names))
     ests_arg = list(ests)
     pf = PerceptionPassFailConfig(ec, names, matching_threshold_list=[1.0] * len(names))
+    for k in range(case.get("warm", 0)):
+        def mirror(o):
+            o = dict(o)
+            if "p" in o:
+                o["p"] = [-o["p"][0] + 8 * k, o["p"][1], o["p"][2]]
+            else:
+                o["roi"] = [o["roi"][0] + 40 * (k + 1), o["roi"][1], o["roi"][2], o["roi"][3]]
+            return o
+        _, e0, g0, _, _ = build(dict(case, est=[mirror(o) for o in reversed(case["est"])], gt=[mirror(o) for o in reversed(case["gt"][1:])]))
+        f0 = FrameGroundTruth(100, "0", g0) if two_d else FrameGroundTruth(100, "0", g0, transforms=[
+            I["HomogeneousMatrix"]((40.0 + k, 7.0, 0.0), (0.0, 0.0, 0.0, 1.0), src=F.BASE_LINK, dst=F.MAP)])
+        try:
+            manager.add_frame_result(100, f0, e0, cof, pf)
+        except Exception as e:
+            return {"error": f"earlier frame {k}: {type(e).__name__}: {e}"}
     before = [obj_fp(o) for o in ests + gts]
     try:
         res = manager.add_frame_result(100, fgt, ests_arg, cof, pf)
@@ -551,6 +605,8 @@ def expected_threshold(case, gt_label, targets=None):
     targets, thresholds = (case["targets"] if targets is None else targets), case["thresholds"]
     if targets is None or thresholds is None or gt_label not in targets:
         return None
+    if not isinstance(thresholds, list):
+        return float(thresholds)          # evaluator configuration: ONE number is the radius of every target label (0 included)
     return float(thresholds[targets.index(gt_label)])
 
 
@@ -709,7 +765,14 @@ class MatchCorr(Corr):
         for c, o in zip(cases, obs):
             bump(d["dim"], c["dim"]); bump(d["mode"], c["mode"]); bump(d["policy"], c["policy"])
             d["fpv"] += bool(c["fpv"]); d["no_thresholds"] += c["thresholds"] is None
+            d["tie_block_scenes"] = d.get("tie_block_scenes", 0) + bool(c.get("tie_block"))
+            d["estimates_2^-27_m_off_the_lattice"] = d.get("estimates_2^-27_m_off_the_lattice", 0) + sum(
+                1 for x in c["est"] if "p" in x and "yaw_rad" not in x and x["p"][0] != int(x["p"][0]))
+            d["radius_exactly_0_for_some_label"] = d.get("radius_exactly_0_for_some_label", 0) + (
+                c["thresholds"] is not None and (0 in c["thresholds"] if isinstance(c["thresholds"], list) else c["thresholds"] == 0))
             if c.get("via") == "manager":
+                d["manager_one_number_radius"] = d.get("manager_one_number_radius", 0) + (c["thresholds"] is not None and not isinstance(c["thresholds"], list))
+                d["manager_earlier_frames_through_the_same_manager"] = d.get("manager_earlier_frames_through_the_same_manager", 0) + c.get("warm", 0)
                 d["manager_tracking_task"] = d.get("manager_tracking_task", 0) + bool(c.get("tracking"))
                 d["manager_target_uuids"] = d.get("manager_target_uuids", 0) + (c.get("uuids") is not None)
             for k in c.get("omit", []) if "via" not in c else []:
@@ -749,6 +812,11 @@ class MatchCorr(Corr):
             d["scenes_with_incompatible_pair_matched"] += any(g is not None and not o["ok"][e][g] for e, g in o["pairs"])
             d["scenes_with_unknown_est"] += any(f["est_unknown"])
             d["scenes_with_fp_gt"] += any(f["gt_fp"])
+            s2 = sum(1 for e, g in o["pairs"] if g is not None and not o["ok"][e][g])
+            s1 = sum(1 for e, g in o["pairs"] if g is not None and o["ok"][e][g])
+            d["scenes_with_3_second_stage_pairs"] = d.get("scenes_with_3_second_stage_pairs", 0) + (s2 >= 3)
+            d["scenes_with_2_second_stage_pairs_and_3_leftover_estimates"] = (d.get("scenes_with_2_second_stage_pairs_and_3_leftover_estimates", 0)
+                                                                              + (s2 >= 2 and fn - s1 >= 3))
         return d
 
 
@@ -764,6 +832,9 @@ class ManagerCorr(MatchCorr):
             n, m = (rng.randint(0, 3), rng.randint(0, 3)) if i % 6 == 0 else (rng.randint(1, 8), rng.randint(1, 8))
             dim = "2d" if i % 3 == 2 else "3d"           # every third scene: ROI objects through a detection2d / fp_validation2d / tracking2d evaluator
             c = gen_scene(rng, n, m, "contested" if rng.random() < 0.5 else "mixed", dim=dim, mode="CENTERDISTANCE", family="autoware")
+            if i % 6 == 4:
+                c = add_tie_block(rng, c)          # second-stage pairs with >= 3 left-over estimates and anti-diagonal ties
+                m = len(c["gt"])
             labels = sorted({o["label"] for o in c["est"] + c["gt"] if o["label"] not in ("FP", "UNKNOWN")}) or ["CAR"]
             rng.shuffle(labels)
             if len(labels) > 1 and rng.random() < 0.3:
@@ -771,6 +842,9 @@ class ManagerCorr(MatchCorr):
             c["targets"] = labels
             pool = THR_DIST if dim == "3d" else [4.0, 5.0, 8.0, 10.0, 0.0, 1000.0, 12.0, 2.0]
             c["thresholds"] = None if rng.random() < 0.3 else [rng.choice(pool) for _ in labels]
+            if rng.random() < 0.2:
+                # ONE number for every target label, the falsy-but-valid 0 / 0.0 included (radius 0: nothing is matchable)
+                c["thresholds"] = rng.choice([0.0, 0, 0.0, rng.choice(pool), rng.choice(pool)])
             for o in c["est"] + c["gt"]:
                 if o["frame"] == "lidar_top":
                     o["frame"] = "map"
@@ -780,6 +854,9 @@ class ManagerCorr(MatchCorr):
                 # target uuids: only these ground truths (and FP-labelled ones) reach the matcher; afterwards results without ground truth are
                 # dropped -- the observable is the matcher's output without its unpaired estimates, as in FP validation
                 c["uuids"] = sorted(rng.sample(range(m), rng.randint(1, m)))
+            # the evaluator is long-lived: 1-2 EARLIER frames (same frame name and time stamp, same uuids, other objects: the scene mirrored,
+            # lists reversed, the first ground truth missing) go through the same manager first -- nothing of them may stick
+            c["warm"] = rng.choice([0, 0, 1, 2])
             out.append(c)
         return out
 
@@ -801,7 +878,7 @@ class C01(Prop):
     id = "C01"
     props_file = "Props/C01.v"
     # redundant tie (core.gen_tie): these decision functions, translated from the source on every run, equal the hand model for all inputs
-    gen_tie_theorems = ['GenTie_is_better_than_other_models']
+    gen_tie_theorems = ['GenTie_is_better_than_other_models', 'GenTie__get_matching_module', 'GenTie__get_fp_object_results', 'GenTie__get_score_table', 'GenTie_best_cell', 'GenTie_get_object_results', 'GenTie_get_object_results_outside', 'GenTie_get_object_results_facts']
     gen_files = []
     design_ref = "DESIGN.md section 4, C01"
     technique = ("Coq proof by induction over the matching loops of an executable Gallina model of get_object_results "
@@ -828,7 +905,12 @@ class C01(Prop):
             "left at their documented defaults (policy DEFAULT, mode CENTERDISTANCE, transforms None in ego-frame scenes, no target labels), a "
             "radius list without target labels; plus 3D (2/3) and 2D-ROI (1/3) scenes of 0-8 x 0-8 objects through a freshly configured "
             "PerceptionEvaluationManager (detection / fp_validation / tracking and the 2d tasks, configured policy and max_matchable_radii, "
-            "25 % with target uuids: the uuid-selected ground truths reach the matcher and unpaired estimates are dropped afterwards); "
+            "25 % with target uuids: the uuid-selected ground truths reach the matcher and unpaired estimates are dropped afterwards; "
+            "a fifth with ONE number as max_matchable_radii, mostly the falsy 0 / 0.0: the radius of every target label; half of the evaluators "
+            "first evaluate 1-2 earlier frames of the same name / time stamp / uuids with other objects and another ego pose); "
+            "a tenth of the lattice estimates near a ground truth sits 2^-27 m off the lattice (candidates closer than float32 resolution that "
+            "are NOT tied); every eighth small / mid scene and every sixth manager scene carries an anti-diagonal tie block (3 ground truths of one label, 4 "
+            "estimates of another: >= 3 left-over estimates in the second stage, score cells (i, j) = (i+1, j-1), a contested last ground truth); "
             "non-trivial = >= 2 estimates, >= 1 GT and at least one pair formed (manager: at least one pair formed)")
     assumptions = ["objects carry geometry (3D boxes or 2D ROIs); the ROI-less 2D dispatch is C11",
                    "matching values are finite floats (NaN/inf values are treated as NaN cells)"]
